@@ -79,7 +79,15 @@ func (s *server) log(kind, arg string) {
 	s.mu.Unlock()
 }
 
-func key(c gnet.Conn) string { return fmt.Sprintf("%p", c) }
+// key: a unique id stored in the connection's context by OnOpen (pointers may be reused after a close)
+var connSeq int64
+
+func key(c gnet.Conn) string {
+	if id, ok := c.Context().(int64); ok {
+		return fmt.Sprintf("k%d", id)
+	}
+	return fmt.Sprintf("%p", c)
+}
 
 // confinement (C05): all callbacks of one connection run on one goroutine, callbacks of one loop never overlap
 func (s *server) enter(c gnet.Conn) func() {
@@ -147,6 +155,7 @@ func (s *server) OnShutdown(gnet.Engine) {
 }
 
 func (s *server) OnOpen(c gnet.Conn) ([]byte, gnet.Action) {
+	c.SetContext(atomic.AddInt64(&connSeq, 1))
 	defer s.enter(c)()
 	s.mu.Lock()
 	s.opened[key(c)]++
@@ -156,6 +165,7 @@ func (s *server) OnOpen(c gnet.Conn) ([]byte, gnet.Action) {
 	s.mu.Unlock()
 	s.log("open", key(c))
 	if hammer {
+		k := key(c)
 		go func() {
 			for i := 0; i < 20 && atomic.LoadInt32(&s.returned) == 0; i++ {
 				_ = c.AsyncWrite([]byte("a"), nil)
@@ -170,7 +180,7 @@ func (s *server) OnOpen(c gnet.Conn) ([]byte, gnet.Action) {
 				_ = c.EventLoop().Execute(context.Background(), runnable{})
 				time.Sleep(50 * time.Microsecond)
 			}
-			if key(c)[len(key(c))-2]%2 == 0 {
+			if k[len(k)-1]%2 == 0 {
 				_ = c.Close()
 			}
 		}()
